@@ -77,7 +77,7 @@ def describe(c):
 
 
 def tla_case(c):
-    return {k: c[k] for k in ("tid", "x", "nd", "ndi", "st", "sp", "outcome", "out", "fit", "G", "S", "dlt", "drel", "checkvalue")}
+    return {k: c[k] for k in ("tid", "x", "nd", "ndi", "st", "sp", "outcome", "out", "fit", "G", "S", "dlt", "drel", "checkvalue", "inmod")}
 
 
 def run_common(prop, tier, seed, cubes, rule):
